@@ -815,6 +815,15 @@ func c16Strace(c *Ctx, cs *Case) {
 		exit, se, inj, _ := run(j.Target, filepath.Join(j.Root, "stdout.txt"), []string{"-P", p, "-e", "trace=openat", "-e", "inject=openat:error=EACCES:when=1"}, "mkdir", "-e", ".gz")
 		judge("strace[openat EACCES] mkdir -e .gz", 1, exit, se, inj)
 		j.Remove()
+		// ... and EIO when that file is CLOSED (what NFS, FUSE and quota filesystems report there):
+		// creating a file is only done when closing it worked
+		if j, err = mon.NewJail(c.TmpDir, true); err != nil {
+			return
+		}
+		p = filepath.Join(j.Target, e.Path)
+		exit, se, inj, _ = run(j.Target, filepath.Join(j.Root, "stdout.txt"), []string{"-P", p, "-e", "trace=close", "-e", "inject=close:error=EIO:when=1"}, "mkdir", "-e", ".gz")
+		judge("strace[close EIO] mkdir -e .gz", 1, exit, se, inj)
+		j.Remove()
 	}
 	// (4) EACCES on the N-th directory listing while verifying a tree that IS there: the walk could
 	// not look, so the command must not claim success
